@@ -231,6 +231,92 @@ class StrategySpace(Subspace):
         return res
 
 
+class RealScaleSpace(Subspace):
+    """The untouched heuristics: real 1,000,000-row thresholds, real thread pool, no seams.
+    Every word is embedded into an array of length L; all other rows carry a null key (inert by
+    C06) and a non-null value that would show up if it leaked.  Each word row is put into a chosen
+    block of rows (all non-decreasing block assignments), so 'group absent from a block' occurs at
+    the real switch-over points.  Compared with the same word un-embedded."""
+    shard = 4
+
+    def __init__(self, name, lo, hi, lengths, seed=0, cat=False):
+        import itertools
+        self.name, self.seed, self.cat = name, seed, cat
+        alpha = row_alphabet(2, 1, [False], True, False)  # keys 0/1, value null / non-null
+        self.ws = W.WordSpace(alpha, lo, hi)
+        self.lengths = lengths
+        self.warm_key = "realscale"
+
+    def size(self):
+        return len(self.ws) * len(self.lengths)
+
+    def warm_indices(self, n):
+        return (n - 1,)
+
+    def case(self, i):
+        wi, li = divmod(i, len(self.lengths))
+        return dict(w=[[list(r[0])] + list(r[1:]) for r in self.ws.at(wi)], L=self.lengths[li],
+                    seed=self.seed, cat=self.cat)
+
+    def run(self, case):
+        import itertools
+        from groupby_lib import GroupBy
+
+        res = Result()
+        d = gbh.Data(case["w"], ("float",), "f8", case["seed"])
+        n, L = d.n, case["L"]
+        res.nontrivial = n >= 2
+        seams = env.seams()
+        seams.reset()  # real executor, real thresholds
+        T = min(4, 1 + L // 1_000_000)
+        nb = max(T, 4)
+        bounds = np.linspace(0, L, nb + 1).astype(int)
+        small_keys = np.asarray(d.keys[0])
+        opsl = ["sum", "first", "last", "min", "max", "count", "size", "mean"]
+
+        def run_ops(K, V):
+            out = {}
+            for name in opsl:
+                op = O.OPS[name]
+                out[name] = gbh.call(lambda: op.fn(GroupBy(K), O.Ctx(V=V, M=None, n=len(V))))
+            return out
+
+        if case.get("cat"):
+            def mk_keys(arr):
+                codes = np.where(np.isnan(arr), -1, np.searchsorted(np.array(sorted(set(
+                    small_keys[~np.isnan(small_keys)].tolist()) or [0.0])), np.nan_to_num(arr))).astype("i8")
+                cats = sorted(set(small_keys[~np.isnan(small_keys)].tolist())) or [0.0]
+                return pd.Categorical.from_codes(codes, categories=cats)
+        else:
+            def mk_keys(arr):
+                return arr
+        base = run_ops(mk_keys(small_keys), d.V)
+        res.execs += len(opsl)
+        for blocks in itertools.combinations_with_replacement(range(nb), n):
+            for side in ("front", "back"):
+                K = np.full(L, np.nan)
+                V = np.ones(L)
+                cnt = {b: blocks.count(b) for b in set(blocks)}
+                seen = {}
+                for r, b in enumerate(blocks):
+                    j = seen.get(b, 0)
+                    seen[b] = j + 1
+                    if side == "front":
+                        pos = int(bounds[b]) + j
+                    else:
+                        pos = int(bounds[b + 1]) - cnt[b] + j
+                    K[pos] = small_keys[r]
+                    V[pos] = d.V[r]
+                got = run_ops(mk_keys(K), V)
+                res.execs += len(opsl)
+                for name in opsl:
+                    bad = gbh.same_mapping(got[name], base[name], ordered=True)
+                    if bad:
+                        res.fail("real-scale", f"{name} L={L} blocks={blocks} {side}: {bad} "
+                                               f"(vs the same rows alone)")
+        return res
+
+
 def subspaces(tier, seed):
     q = tier == "quick"
     S = StrategySpace
@@ -254,4 +340,8 @@ def subspaces(tier, seed):
                         seed=seed))
         sp.append(S("chunkwise-strkeys-A2-n1to3", 2, 1, 3, mode="chunkwise", keykind="str_obj",
                     bound=1, seed=seed))
+        sp.append(RealScaleSpace("real-scale-float-n1to3", 1, 3,
+                                 (999_999, 1_000_000, 1_000_001, 2_000_000, 3_000_000), seed=seed))
+        sp.append(RealScaleSpace("real-scale-categorical-n2to3", 2, 3, (1_000_000, 4_000_000),
+                                 seed=seed, cat=True))
     return sp
